@@ -437,6 +437,11 @@ impl<'l> StringTokenizer<'l> {
         'outer: loop {
             if let Some(next) = self.scanner.peek() {
                 match next {
+                    // in a hexadecimal literal the letters a-f are digits (and `e` is no exponent)
+                    'a'..='f' | 'A'..='F' if base == 16 => {
+                        working.push(next);
+                        self.scanner.next();
+                    }
                     '0' => {
                         working.push(next);
                         self.scanner.next();
@@ -446,6 +451,10 @@ impl<'l> StringTokenizer<'l> {
                         self.scanner.next();
                     }
                     'e' | 'E' | '.' => {
+                        if base == 16 {
+                            break 'outer;
+                        }
+
                         if next == '.' && is_float {
                             break 'outer;
                         } else if is_exp {
